@@ -408,7 +408,7 @@ func sqlCreate(t *Table, r *lib.RNG) string {
 
 var idAlphabet = []string{"a", "b", "c", "x", "y", "_", "1", "A", "Z", " ", "`", "é", "日", "-", "'", "\"", ".", "$"}
 var keywords = []string{"select", "table", "key", "order", "group", "from", "index", "primary", "default", "NULL", "comment"}
-var txtAlphabet = []string{"a", "b", "z", " ", "'", "\\", "\"", "\n", "\r", "é", "日", "%", "_", ",", ")", "`", "0"}
+var txtAlphabet = []string{"a", "b", "z", " ", "'", "\\", "\"", "\n", "\r", "\x00", "é", "日", "%", "_", ",", ")", "`", "0"}
 
 func randFrom(r *lib.RNG, alpha []string, lo, hi int) string {
 	n := r.Range(lo, hi)
@@ -451,9 +451,25 @@ func randText(r *lib.RNG, max int) string {
 	return randFrom(r, txtAlphabet, 1, max)
 }
 
+var csDefault = map[string]string{"utf8mb4": "utf8mb4_0900_ai_ci", "latin1": "latin1_swedish_ci", "ascii": "ascii_general_ci", "utf8mb3": "utf8mb3_general_ci"}
+
 func otherColl(r *lib.RNG, tc string) string {
 	if !r.Chance(1, 3) {
 		return ""
+	}
+	if r.Bool() { // same character set as the table: its default collation if the table uses another one, else a sibling
+		if d := csDefault[charsetOf(tc)]; d != tc && r.Chance(2, 3) {
+			return d
+		}
+		var sib []string
+		for _, c := range collNames {
+			if c != tc && charsetOf(c) == charsetOf(tc) {
+				sib = append(sib, c)
+			}
+		}
+		if len(sib) > 0 {
+			return lib.Pick(r, sib)
+		}
 	}
 	for {
 		c := lib.Pick(r, collNames)
@@ -772,6 +788,13 @@ func genProbes(r *lib.RNG, t *Table) []string {
 		}
 		out = append(out, "INSERT INTO "+qid(t.Name)+" ("+strings.Join(cols, ", ")+") VALUES ("+strings.Join(vals, ", ")+")")
 	}
+	// case-variant equality / ordering probes on every character column (collation-sensitive behaviour)
+	for _, c := range t.Cols {
+		switch c.Ty.Kind {
+		case "char", "varchar", "text":
+			out = append(out, "SELECT COUNT(*), SUM("+qid(c.Name)+" = 'A'), SUM("+qid(c.Name)+" = 'a'), SUM("+qid(c.Name)+" < 'B') FROM "+qid(t.Name))
+		}
+	}
 	return out
 }
 
@@ -788,6 +811,9 @@ func runProbes(s *eng.S, cs *caseT, name string) []string {
 	for _, p := range cs.Probes {
 		r := s.Query(p)
 		out = append(out, eng.ErrKind(r.Err))
+		if r.Err == nil && strings.HasPrefix(p, "SELECT COUNT(*)") {
+			out = append(out, eng.Rows(r.Rows)...)
+		}
 	}
 	if name != "" {
 		r := s.Query("SELECT * FROM " + qid(name))
@@ -799,6 +825,19 @@ func runProbes(s *eng.S, cs *caseT, name string) []string {
 			out = append(out, fmt.Sprintf("rows=%d", len(rows)))
 			if cs.T != nil && !hasNow(cs.T) {
 				out = append(out, rows...)
+			}
+		}
+		// the catalog's own view of the object: collations, comments, defaults, types (not only the SHOW CREATE text)
+		for _, q := range []string{
+			"SELECT column_name, ordinal_position, column_default, is_nullable, column_type, character_set_name, collation_name, column_key, extra, column_comment FROM information_schema.columns WHERE table_schema = 'db' AND table_name = " + qstr(name) + " ORDER BY ordinal_position",
+			"SELECT table_collation, table_comment FROM information_schema.tables WHERE table_schema = 'db' AND table_name = " + qstr(name),
+			"SELECT index_name, seq_in_index, column_name, non_unique, sub_part, index_comment FROM information_schema.statistics WHERE table_schema = 'db' AND table_name = " + qstr(name) + " ORDER BY index_name, seq_in_index",
+		} {
+			ri := s.Query(q)
+			if ri.Err != nil {
+				out = append(out, "is-err:"+eng.ErrKind(ri.Err))
+			} else {
+				out = append(out, eng.Rows(ri.Rows)...)
 			}
 		}
 		r = s.Query("DESCRIBE " + qid(name))
@@ -999,6 +1038,11 @@ func corpus(r *lib.RNG) []caseT {
 			cs.NoModel, cs.Tag = true, "autoinc-beyond-column-range"
 			return cs
 		}(),
+		// column with the default collation of the table's character set while the table uses another one
+		i(&Table{Name: "cd1", Coll: def, Cols: []Col{{Name: "a", Ty: Type{Kind: "varchar", N: "5", Coll: "utf8mb4_0900_ai_ci"}, Null: true}, {Name: "b", Ty: Type{Kind: "varchar", N: "5"}, Null: true}}}, nil),
+		i(&Table{Name: "cd2", Coll: "latin1_bin", Cols: []Col{{Name: "a", Ty: Type{Kind: "char", N: "3", Coll: "latin1_swedish_ci"}, Null: true}, {Name: "e", Ty: Type{Kind: "enum", Vals: []string{"x", "y"}, Coll: "latin1_swedish_ci"}, Null: true}}}, nil),
+		// comments with double quote, LF, CR, NUL
+		i(&Table{Name: "cm1", Coll: def, Comment: "t\"q\"\n\r\x00z", Cols: []Col{{Name: "a", Ty: Type{Kind: "int", Sub: "int"}, Null: true, Comment: "c\"\n\r\x00'\\"}}}, nil),
 		// ordinary fixed cases
 		i(&Table{Name: "we`ird name", Coll: def, Comment: "a\\b\"c'd\n",
 			Cols: []Col{{Name: "a b", Ty: Type{Kind: "int", Sub: "bigint", Uns: true}, Auto: true, Comment: "it's \"q\" \\ z"},
